@@ -17,26 +17,52 @@ BADSTR = 987654321  # number standing for a string the implementation made up
 
 # ------------------------------------------------------------------ names
 def s_addr(k): return "" if k == 0 else "a%d" % k
-def s_reg(k): return "" if k == 0 else "r%d" % k
+# region names outside the "r<k>" family: not in byte order w.r.t. each other, blanks, case, non-ASCII, the reserved name
+SPECIAL_REG = {101: "east", 102: "west", 103: "Zone B", 104: "zone-\u00e9\u00fc", 105: "r1 ", 106: "R1", 107: "UNKNOWN", 108: "\u6771\u4eac/1"}
+SPECIAL_REG_N = {v: k for k, v in SPECIAL_REG.items()}
+
+
+def s_reg(k):
+    if k in SPECIAL_REG:
+        return SPECIAL_REG[k]
+    return "" if k == 0 else "r%d" % k
+
+
 def s_app(k): return "" if k == 0 else "app%d" % k
 
 
 def n_of(s, prefix):
     if s == "":
         return 0
+    if prefix == "r" and s in SPECIAL_REG_N:
+        return SPECIAL_REG_N[s]
     if s.startswith(prefix) and s[len(prefix):].isdigit() and not s[len(prefix):].startswith("0"):
         return int(s[len(prefix):])
     return BADSTR
+
+
+def plog_of(c, a):
+    return (c.get("plogs") or {}).get(a, [])
+
+
+def norm_case(c):
+    """case as read back from JSON (corpus / replay file)"""
+    c["hosts"] = [tuple(h[:3]) + (list(h[3]),) for h in c["hosts"]]
+    c["shards"] = [(x[0], x[1], list(x[2])) for x in c["shards"]]
+    c["regions"] = None if c["regions"] is None else (list(c["regions"][0]), list(c["regions"][1]))
+    c["plogs"] = {int(k): [tuple(p) for p in v] for k, v in (c.get("plogs") or {}).items()}
+    c.setdefault("ramped", False)
+    return c
 
 
 # ------------------------------------------------------------------ case plumbing
 def go_line(c):
     return json.dumps({
         "tick": c["tick"],
-        "hosts": [{"a": s_addr(a), "r": s_reg(r), "t": t, "s": list(ss)} for (a, r, t, ss) in c["hosts"]],
+        "hosts": [{"a": s_addr(a), "r": s_reg(r), "t": t, "s": list(ss), "p": [list(x) for x in plog_of(c, a)]} for (a, r, t, ss) in c["hosts"]],
         "shards": [{"id": i, "app": s_app(app), "m": list(ms)} for (i, app, ms) in c["shards"]],
         "regions": None if c["regions"] is None else {"r": [s_reg(x) for x in c["regions"][0]], "c": list(c["regions"][1])},
-        "draws": list(c["draws"])}, separators=(",", ":"))
+        "draws": list(c["draws"])}, separators=(",", ":"), ensure_ascii=False)
 
 
 def cn(n):
@@ -56,7 +82,7 @@ def cn(n):
 class VFile:
     """one generated cases file: repeated sub-terms (fleets, specifications, lists) are defined once"""
     def __init__(self):
-        self.defs, self.order, self.items = {}, [], []
+        self.defs, self.order, self.items, self.regs_seen = {}, [], [], set()
 
     def intern(self, prefix, text, force=False):
         if len(text) < 12 and not force:
@@ -78,8 +104,12 @@ class VFile:
         # (stdpp is deliberately not imported here: its notations and hints make coqc elaborate these files 40% slower)
         hdr = ("From Coq Require Import Uint63.\nFrom Drummer.Model Require Import Base DB Launch LaunchRun.\n"
                "Local Open Scope uint63_scope.\n")
+        # the list of cases in chunks: coqc overflows its stack on a list literal of some 25000 entries
+        ts = [t for (t, _) in self.items]
+        chunks = [ts[i:i + 1500] for i in range(0, len(ts), 1500)] or [[]]
         return (hdr + "".join("Definition %s := %s.\n" % (n, t) for (n, t) in self.order) +
-                "Definition codes : list N := [\n" + ";\n".join(t for (t, _) in self.items) + "\n].\n"
+                "".join("Definition chunk%d : list N := [\n%s\n].\n" % (i, ";\n".join(ch)) for i, ch in enumerate(chunks)) +
+                "Definition codes : list N := " + " ++ ".join("chunk%d" % i for i in range(len(chunks))) + ".\n"
                 "Definition R := Eval vm_compute in codes.\n"
                 "Definition M1 := Eval vm_compute in codes_with 1 R.\nDefinition M2 := Eval vm_compute in codes_with 2 R.\nPrint M1.\nPrint M2.\n")
 
@@ -104,13 +134,23 @@ def coq_draws(vf, c, o):
 
 
 def coq_case(vf, c, ttl, o):
-    hosts = vf.intern("f", "[" + ";".join("mkH %s %s %s %s" % (cn(a), cn(r), cn(t), vf.nl(ss)) for (a, r, t, ss) in c["hosts"]) + "]")
+    def host(a, r, t, ss):
+        pl = plog_of(c, a)
+        if pl and all(x < (1 << 62) and y < (1 << 62) for (x, y) in pl):
+            return "mkHp %s %s %s %s (pl [%s])" % (cn(a), cn(r), cn(t), vf.nl(ss), ";".join("(%d,%d)" % (x, y) for (x, y) in pl))
+        if pl:
+            return "mkHp %s %s %s %s [%s]" % (cn(a), cn(r), cn(t), vf.nl(ss), ";".join("(%s,%s)" % (cn(x), cn(y)) for (x, y) in pl))
+        return "mkH %s %s %s %s" % (cn(a), cn(r), cn(t), vf.nl(ss))
+    hosts = vf.intern("f", "[" + ";".join(host(*h) for h in c["hosts"]) + "]")
     shards = vf.intern("s", "[" + ";".join("mkSD %s %s %s" % (cn(i), vf.nl(ms), cn(app)) for (i, app, ms) in c["shards"]) + "]")
     regs = "None" if c["regions"] is None else vf.intern("g", "(Some (mkRegions %s %s))" % (vf.nl(c["regions"][0]), vf.nl(c["regions"][1])))
     if o["o"] == "plan":
         obs = "(Plan [" + ";".join(coq_req(vf, q) for q in o["reqs"]) + "])"
     else:
         obs = {"err": "Refused", "panic": "Crash", "ood": "OutOfDraws"}[o["o"]]
+    if regs not in vf.regs_seen and o.get("vr") in ("ok", "err"):
+        vf.regs_seen.add(regs)
+        vf.items.append(("rcode %s %s" % (regs, cbool(o["vr"] == "ok")), ("validateRegions", c, o)))
     return "lcode %s %s %s %s %s %s %s" % (vf.intern("t", cn(ttl), True), cn(c["tick"]), hosts, shards, regs, coq_draws(vf, c, o), obs)
 
 
@@ -154,8 +194,20 @@ def monitors(c, ttl, o, ramped):
     """-> list of (kind, text) of property violations visible in what the implementation returned"""
     bad = []
     why = must_refuse(c, ttl)
+    # server.validateRegions ran on the message that is the launch specification
+    given = ([], []) if c["regions"] is None else ([s_reg(x) for x in c["regions"][0]], list(c["regions"][1]))
+    if o["vr"] == "panic":
+        bad.append(("validate_regions", "validateRegions crashed: %s" % o["vrmsg"][:200]))
+    else:
+        want_ok = (c["regions"] is not None and len(given[0]) > 0 and len(given[0]) == len(given[1])
+                   and "" not in given[0] and len(set(given[0])) == len(given[0]))
+        if (o["vr"] == "ok") != want_ok:
+            bad.append(("validate_regions", "validateRegions %s the specification %s (%s)" % ("accepts" if o["vr"] == "ok" else "refuses", given, o["vrmsg"])))
+    if (o["ra"], o["rc"]) != given:
+        bad.append(("validate_regions", "validateRegions changed the specification it was given (SetRegions persists the message after this call, so the "
+                    "counts would be stored against other regions): %s -> %s" % (given, (o["ra"], o["rc"]))))
     if o["o"] == "panic":
-        return [("no_crash", "launch() crashed: %s" % o["msg"][:200])]
+        return bad + [("no_crash", "launch() crashed: %s" % o["msg"][:200])]
     if o["o"] in ("err", "ood"):
         if o["reqs"] or not o["nilreqs"]:
             bad.append(("all_or_nothing", "launch() returned %d requests together with %s" % (len(o["reqs"]), "an error" if o["o"] == "err" else "an unfinished selection")))
@@ -200,9 +252,13 @@ def monitors(c, ttl, o, ramped):
                 if hosts[x][1] not in names:
                     bad.append(("valid:quota", "shard %d: member on %s in region %s which is not in the specification" % (sid, x, s_reg(hosts[x][1]))))
         for q in blk:
+            if q["join"] is not False or q["restore"] is not False:
+                h = hosts.get(q["raft"])
+                bad.append(("valid:launch_flags", "shard %d member %d on %s: the launch request is flagged join=%s restore=%s (a launch request is a plain start); "
+                            "persistent-log records reported by that host: %s" % (sid, q["inst"], q["raft"], q["join"], q["restore"], plog_of(c, h[0]) if h else "?")))
             if not (q["t"] == 0 and q["cc"] == 0 and q["cm"] == list(ms) and q["rids"] == list(ms) and q["addrs"] == rafts
-                    and q["join"] is False and q["restore"] is False and q["app"] == s_app(app)):
-                bad.append(("valid:shared_map", "shard %d member %d: request does not carry the shard's member list / the block's address list / launch flags: %s" % (sid, q["inst"], json.dumps(q)[:300])))
+                    and q["app"] == s_app(app)):
+                bad.append(("valid:shared_map", "shard %d member %d: request does not carry the shard's member list / the block's address list / type CREATE / app name: %s" % (sid, q["inst"], json.dumps(q)[:300])))
             if wf_shard(sd) and not q["v"]:
                 bad.append(("valid:validate", "shard %d member %d: validateNodeHostRequest rejects the request %s" % (sid, q["inst"], json.dumps(q)[:300])))
     return bad
@@ -290,6 +346,89 @@ def mk_fleet(kinds, rng):
     return [(i + 1, r, t, list(ss)) for i, (r, t, ss) in enumerate(kinds)]
 
 
+def mk_plogs(hosts, shards, rng, p=0.5):
+    """leftover persistent-log records on some hosts: for every member of a shard (so whichever member lands there matches),
+    for one member, for a replica id that is not a member, for the same replica ids under another shard id"""
+    out = {}
+    if not shards:
+        return out
+    for (a, r, t, ss) in hosts:
+        if rng.random() >= p:
+            continue
+        (sid, app, ms) = rng.choice(shards)
+        k = rng.randrange(5)
+        if k == 0 or not ms:
+            recs = [(sid, m) for m in ms] or [(sid, 1)]
+        elif k == 1:
+            recs = [(sid, rng.choice(ms))]
+        elif k == 2:
+            recs = [(sid, max(ms) + 1 if max(ms) < U64 - 1 else 77)]
+        elif k == 3:
+            recs = [((sid + 1) % U64, m) for m in ms]
+        else:
+            recs = [(x, m) for (x, _, mm) in shards for m in mm][:12]
+        out[a] = recs
+    return out
+
+
+def gen_directed(ck, ttl):
+    """dimensions outside the small alphabet of the systematic phases"""
+    rng = ck.rng
+    quick = ck.tier == "quick"
+    cases = []
+    live = T0 - ttl + 1
+    # E: large fleets: more than 64 suitable hosts in one region (candidate indexes >= 64), counts 2..5, scripts that
+    #    repeat indexes around 63/64/65, 127/128 and the last one
+    for nsuit in ([65, 66, 100, 129] if quick else [65, 66, 67, 100, 127, 128, 129, 130]):
+        kinds = [(1, live, ())] * nsuit + [(1, T0 - ttl, ()), (1, live, (1,)), (2, live, ()), (2, live, ()), (3, live, ())]
+        hosts = mk_fleet(kinds, rng) if nsuit % 2 else [(i + 1, r, t, list(ss)) for i, (r, t, ss) in enumerate(kinds)]
+        plogs = mk_plogs(hosts, [(1, 1, [1, 2, 3, 4, 5])], rng, p=0.3)
+        for cnt in (2, 3, 5):
+            scripts = [[64, 64], [63, 63, 64, 64, 65, 65], [nsuit - 1, nsuit - 1, nsuit - 2, nsuit - 1], [64 + nsuit, 64, 64 + 2 * nsuit],
+                       [127, 127, 128, 128, 64, 127], [0, 64, 0, 64, 1, 64], [x for _ in range(3) for x in (rng.randrange(64, 64 + nsuit),) * 2]]
+            for pre in scripts:
+                for rg in (([1], [cnt]), ([2, 1], [1, cnt - 1])):
+                    if quick and rng.random() < 0.35:
+                        continue
+                    c = {"tick": T0, "hosts": hosts, "plogs": plogs, "shards": [(1, 1, list(range(1, cnt + 1)))], "regions": rg, "origin": "E:large fleet"}
+                    c["pre"] = list(pre)
+                    c["draws"] = list(pre) + ramp(n_selections(c))
+                    c["ramped"] = True
+                    cases.append(c)
+    # F: many shards; shard and member ids >= 100000 (logutil prints ids modulo 100000) and >= 2^32
+    big = [100000, 100001, 200001, 1 << 32, (1 << 32) + 1, (1 << 63) + 5, U64 - 2]
+    for nsh in ([40, 150] if quick else [40, 150, 600]):
+        for rep in range(2):
+            ids = rng.sample(range(1, 5 * nsh), nsh - len(big)) + big
+            rng.shuffle(ids)
+            shards = []
+            for sid in ids:
+                ms = rng.sample([1, 2, 3, 100001, 200001, (1 << 32) + 1, (1 << 32) + 2, U64 - 1, 7, 8], 3)
+                shards.append((sid, 1, ms))
+            kinds = [(reg, live, ()) for reg in (1, 1, 1, 2, 2, 3)] + [(1, live, (ids[-1],) if rep else ())]
+            hosts = mk_fleet(kinds, rng)
+            c = {"tick": T0, "hosts": hosts, "plogs": mk_plogs(hosts, shards[:5], rng), "shards": shards,
+                 "regions": ([3, 1, 2], [1, 2, 0]) if rep == 0 else ([1], [3]), "origin": "F:many shards, wide ids"}
+            cases.append(add_draws(c, rng, short_p=0.0))
+    # G: region names that are not "r<k>": out of byte order, blanks, case, non-ASCII, the reserved name; unequal counts
+    names = sorted(SPECIAL_REG)
+    for _ in range(60 if quick else 600):
+        regs = rng.sample(names + [1, 2], rng.randrange(2, 5))
+        n = rng.randrange(2, 5)
+        counts = [0] * len(regs)
+        for _ in range(n):
+            counts[rng.randrange(len(regs))] += 1
+        if len(set(counts)) == 1:
+            counts[0] += 1
+            n += 1
+        kinds = [(r, live, ()) for r, k in zip(regs, counts) for _ in range(k + rng.randrange(0, 2))] + [(rng.choice(names), live, ())]
+        hosts = mk_fleet(kinds, rng)
+        shards = [(rng.choice([1, 100000, 1 << 32]), 1, rng.sample(range(1, 9), n))]
+        c = {"tick": T0, "hosts": hosts, "plogs": mk_plogs(hosts, shards, rng), "shards": shards, "regions": (regs, counts), "origin": "G:region names"}
+        cases.append(add_draws(c, rng, short_p=0.0))
+    return cases
+
+
 def gen_systematic(ck, ttl):
     rng = ck.rng
     cases = []
@@ -303,6 +442,7 @@ def gen_systematic(ck, ttl):
             fleetsA.append([kinds[i] for i in combo])
     for fl in fleetsA:
         hosts = mk_fleet(fl, rng)
+        plogs = mk_plogs(hosts, [(1, 1, [1, 2])], rng, p=0.25)
         if quick and len(fl) == 4:
             sp = rng.sample(specs, 4)
         elif quick and len(fl) == 3:
@@ -310,7 +450,7 @@ def gen_systematic(ck, ttl):
         else:
             sp = specs
         for (label, rg) in sp:
-            c = {"tick": T0, "hosts": hosts, "shards": [(1, 1, [1, 2])], "regions": rg, "origin": "A:" + label}
+            c = {"tick": T0, "hosts": hosts, "plogs": plogs, "shards": [(1, 1, [1, 2])], "regions": rg, "origin": "A:" + label}
             cases.append(add_draws(c, rng))
     # B: shard sizes 1 and 3 on fleets of <= 3 hosts
     for n in (1, 3):
@@ -320,8 +460,9 @@ def gen_systematic(ck, ttl):
                 continue
             sp = rng.sample(specs, 3 if quick else 12)
             hosts = mk_fleet(fl, rng)
+            plogs = mk_plogs(hosts, [(1, 1, list(range(1, n + 1)))], rng, p=0.25)
             for (label, rg) in sp:
-                c = {"tick": T0, "hosts": hosts, "shards": [(1, 1, list(range(1, n + 1)))], "regions": rg, "origin": "B:" + label}
+                c = {"tick": T0, "hosts": hosts, "plogs": plogs, "shards": [(1, 1, list(range(1, n + 1)))], "regions": rg, "origin": "B:" + label}
                 cases.append(add_draws(c, rng))
     # C: two shards (the second one may be the unplaceable one): hosts may already host shard 2
     kinds2 = [(reg, t, ss) for reg in (1, 2, 3) for (t, ss) in ((T0 - ttl + 1, ()), (T0, (2,)), (T0 - ttl, ()))]
@@ -333,11 +474,12 @@ def gen_systematic(ck, ttl):
         for combo in combos:
             fl = [kinds2[i] for i in combo]
             hosts = mk_fleet(fl, rng)
+            plogs = mk_plogs(hosts, [(1, 1, [1, 2]), (2, 1, [3, 4])], rng, p=0.5)
             for rg in (rng.sample(good, 2) if quick else good):
                 for shards in ([(1, 1, [1, 2]), (2, 1, [3, 4])], [(2, 1, [3, 4]), (1, 1, [1, 2])]):
                     if quick and rng.random() < 0.5:
                         continue
-                    c = {"tick": T0, "hosts": hosts, "shards": shards, "regions": rg, "origin": "C:two shards"}
+                    c = {"tick": T0, "hosts": hosts, "plogs": plogs, "shards": shards, "regions": rg, "origin": "C:two shards"}
                     cases.append(add_draws(c, rng))
     # D: fleets that mostly fit: hosts good (live, not hosting) or bad in one way, 1..5 hosts, shard sizes 1..3, specifications that add up
     kindsD = [(reg, T0 - ttl + 1, ()) for reg in (1, 2, 3)] + [(1, T0 - ttl, ()), (2, T0 - ttl + 1, (1,)), (3, T0 + 1, ())]
@@ -349,8 +491,9 @@ def gen_systematic(ck, ttl):
             for combo in combos:
                 fl = [kindsD[i] for i in combo]
                 hosts = mk_fleet(fl, rng)
+                plogs = mk_plogs(hosts, [(1, 1, list(range(1, n + 1)))], rng, p=0.5)
                 for rg in (rng.sample(fit, 4) if quick else fit):
-                    c = {"tick": T0, "hosts": hosts, "shards": [(1, 1, list(range(1, n + 1)))], "regions": rg, "origin": "D:fitting"}
+                    c = {"tick": T0, "hosts": hosts, "plogs": plogs, "shards": [(1, 1, list(range(1, n + 1)))], "regions": rg, "origin": "D:fitting"}
                     cases.append(add_draws(c, rng))
     return cases
 
@@ -361,13 +504,13 @@ def gen_random(ck, ttl, count):
     for _ in range(count):
         tick = rng.choice([T0, T0, T0, ttl - 1, ttl, 5, 0, U64 - 1, 1 << 63])
         nsh = rng.randrange(1, 7)
-        ids = rng.sample([1, 2, 3, 4, 5, 6, 7, 100, (1 << 64) - 1, 0], nsh)
+        ids = rng.sample([1, 2, 3, 4, 5, 6, 7, 100, (1 << 64) - 1, 0, 100000, 100001, 1 << 32, (1 << 32) + 1], nsh)
         nh = rng.randrange(0, 9)
         hosts = []
         tickvals = [tick, (tick - ttl + 1) % U64, (tick - ttl) % U64, (tick - ttl - 1) % U64, (tick + 1) % U64, 0, U64 - 1, (tick - 1) % U64]
         p_host = rng.choice([0.0, 0.05, 0.15])
         for i in range(nh):
-            reg = rng.choice([1, 1, 2, 2, 3, 0])
+            reg = rng.choice([1, 1, 2, 2, 3, 0, 102, 101])
             t = rng.choice(tickvals) if rng.random() < 0.35 else tick
             ss = [sid for sid in ids if rng.random() < p_host]
             hosts.append((i + 1, reg, t, ss))
@@ -379,6 +522,8 @@ def gen_random(ck, ttl, count):
         for sid in ids:
             n = size0 if same else rng.randrange(1, 6)
             ms = rng.sample(range(1, 30), n)
+            if rng.random() < 0.15:
+                ms = [m + rng.choice([100000, 1 << 32]) if rng.random() < 0.5 else m for m in ms]
             app = 1
             r = rng.random() if illformed else 1.0
             if r < 0.10:
@@ -396,7 +541,7 @@ def gen_random(ck, ttl, count):
         k = rng.random()
         if k < 0.65:
             # a specification that adds up; weights follow what the fleet offers so that plans are frequent
-            regs = rng.sample([1, 2, 3, 0, 9], rng.randrange(1, 5))
+            regs = rng.sample([1, 2, 3, 0, 9, 102, 101], rng.randrange(1, 5))
             counts = [0] * len(regs)
             avail = [min(n_suitable({"hosts": hosts, "tick": tick}, ttl, sid, r) for sid in ids) for r in regs]
             for _ in range(n):
@@ -411,7 +556,7 @@ def gen_random(ck, ttl, count):
             regs = [rng.choice([1, 2, 3, 0, 9]) for _ in range(rng.randrange(0, 5))]
             counts = [rng.choice([0, 1, 2, n, U64 - 1, 1 << 63]) for _ in range(rng.randrange(0, 5))]
             rg = (regs, counts)
-        c = {"tick": tick, "hosts": hosts, "shards": shards, "regions": rg, "origin": "R"}
+        c = {"tick": tick, "hosts": hosts, "plogs": mk_plogs(hosts, shards, rng, p=rng.choice([0.0, 0.3, 0.8])), "shards": shards, "regions": rg, "origin": "R"}
         cases.append(add_draws(c, rng, short_p=0.08))
     return cases
 
@@ -424,12 +569,8 @@ def load_corpus():
             line = line.strip()
             if line and not line.startswith("#"):
                 d = json.loads(line)
-                c = d["case"]
-                c["hosts"] = [tuple(h[:3]) + (list(h[3]),) for h in c["hosts"]]
-                c["shards"] = [(s[0], s[1], list(s[2])) for s in c["shards"]]
-                c["regions"] = None if c["regions"] is None else (list(c["regions"][0]), list(c["regions"][1]))
+                c = norm_case(d["case"])
                 c["origin"] = "corpus:" + d.get("id", "?")
-                c.setdefault("ramped", False)
                 out.append(c)
     return out
 
@@ -438,8 +579,9 @@ def replay_obj(c, ttl, o, kind):
     return {"kind": "monitor:" + kind, "engine": "sched/launch", "nodeHostTTL": ttl,
             "case": {"tick": c["tick"], "hosts": [list(h) for h in c["hosts"]], "shards": [list(s) for s in c["shards"]],
                      "regions": None if c["regions"] is None else [c["regions"][0], c["regions"][1]], "draws": c["draws"],
+                     "plogs": {str(k): [list(x) for x in v] for k, v in (c.get("plogs") or {}).items()},
                      "ramped": c.get("ramped", False)},
-            "encoding": "hosts: [address k = 'a<k>', region k = 'r<k>' (0 = ''), last tick, hosted shard ids]; shards: [id, app k = 'app<k>', members]; regions: [names, counts] or null",
+            "encoding": "hosts: [address k = 'a<k>', region k = 'r<k>' (0 = ''), last tick, hosted shard ids]; shards: [id, app k = 'app<k>', members]; regions: [names, counts] or null; plogs: address k -> [[shard, replica]] persistent-log records; region numbers 101.. are the names of SPECIAL_REG in harness/py/c08.py",
             "origin": c.get("origin"), "go_input_line": go_line(c)[:3000], "observed": json.dumps(o)[:3000]}
 
 
@@ -454,7 +596,14 @@ def run(ck):
         "members (mostly equal sizes; some with member id 0 / duplicate ids / empty app / no members), 0..8 hosts with ticks around tick-ttl, in "
         "the future and wrapped, regions incl. the empty name, specifications fitting the fleet or malformed. Every case carries a script of "
         "random-source values (zeros, repeats, values near 2^63, then consecutive integers so that every selection finishes; a few scripts "
-        "are cut short). A case is non-trivial if it has a host and a shard; distinct by md5 of the executor input line.")
+        "are cut short). E: large fleets (65..130 suitable hosts in one region plus unsuitable ones interleaved, counts 2..5, scripts that repeat "
+        "candidate indexes around 63/64/65, 127/128 and the last one). F: 40..600 shards with shard and member ids >= 100000, >= 2^32, >= 2^63. "
+        "G: region names that are not in byte order, with blanks, upper case, non-ASCII, the reserved name UNKNOWN, unequal counts. "
+        "Hosts of every phase may report leftover persistent-log records (for every member of a defined shard, one member, a non-member, "
+        "another shard id); launch must ignore them. In every case the real server.validateRegions is called on the pb.Regions message "
+        "before the launch and the same message object is the launch specification (verdict and unchanged message are monitored, the plan "
+        "is judged against the specification as given). A case is non-trivial if it has a host and a shard; distinct by md5 of the "
+        "executor input line.")
     tm = {}
     ck.cov["timing_s"] = tm
     t0 = time.time()
@@ -490,15 +639,13 @@ def run(ck):
     ck.cov["nodeHostTTL_read_from_code"] = ttl
     if ck.replay:
         r = json.load(open(ck.replay))
-        c = r["case"]
-        c["hosts"] = [tuple(h[:3]) + (list(h[3]),) for h in c["hosts"]]
-        c["shards"] = [(x[0], x[1], list(x[2])) for x in c["shards"]]
-        c["regions"] = None if c["regions"] is None else (list(c["regions"][0]), list(c["regions"][1]))
+        c = norm_case(r["case"])
         c["origin"] = "replay"
         cases = [c]
     else:
         cases = load_corpus()
         ck.cov["corpus_cases"] = len(cases)
+        cases += gen_directed(ck, ttl)
         cases += gen_systematic(ck, ttl)
         cases += gen_random(ck, ttl, 10000 if ck.tier == "quick" else 300000)
     t0 = time.time()
@@ -523,8 +670,13 @@ def run(ck):
                     continue
                 seen.add(kind)
                 nviol += 1
-                ck.violation("%s [tick %d, ttl %d, hosts %s, shards %s, regions %s, draws %s...]" % (
-                    text, c["tick"], ttl, [(s_addr(a), s_reg(r), t, ss) for (a, r, t, ss) in c["hosts"]], c["shards"],
+                hs = [(s_addr(a), s_reg(r), t, ss) + ((plog_of(c, a),) if plog_of(c, a) else ()) for (a, r, t, ss) in c["hosts"]]
+                if len(hs) > 8:
+                    hs_show = [h for h in hs if ("'%s'" % h[0]) in text or (" %s " % h[0]) in text or (" %s:" % h[0]) in text][:6] + hs[:3]
+                else:
+                    hs_show = hs
+                ck.violation("%s [tick %d, ttl %d, hosts (address, region, last tick, hosted shards[, persistent logs]) %s%s, shards %s, regions %s, draws %s...]" % (
+                    text[:600], c["tick"], ttl, hs_show, "" if len(hs) <= 8 else " ... %d hosts in all, see the replay file" % len(hs), c["shards"][:8],
                     None if c["regions"] is None else ([s_reg(x) for x in c["regions"][0]], c["regions"][1]), c["draws"][:8]),
                     replay_obj(c, ttl, o, kind))
     ck.cov["outcomes"] = outcomes
@@ -576,7 +728,7 @@ def run(ck):
         what, x, o = info
         ck.violation("model and implementation disagree on %d cases (first: %s) but no property monitor failed" % (len(mism), what),
                      {"kind": "correspondence", "engine": "sched/launch", "n_disagreements": len(mism), "first_case_coq": term[:3000],
-                      "first_case": (replay_obj(x, ttl, o, "none") if what == "launch" else x), "theorems": ck.cov.get("theorems")},
+                      "first_case": (replay_obj(x, ttl, o, "none") if what != "validate" else x), "theorems": ck.cov.get("theorems")},
                      found_input=False)
     elif mism:
         ck.cov["model_disagreements"] = len(mism)
